@@ -1,144 +1,2 @@
-(* GENERATED by tools/vlib/py2coq_act.py from reservoirpy/activationsfunc.py -- DO NOT EDIT.
-   Regenerated from the current source by `./check C18` (pregen) and by setup (tools/regen.py).
-   Arrays are flattened to `list R`; `@_elementwise` (np.vectorize, with its empty-input guard: map f [] = []) is `map`; np.max / .sum() are lmax / lsum
-   (model/ActPrelude.v); np.log1p z = ln (1 + z); np.maximum = Rmax; np.abs = Rabs; `if a < b` = Rlt_dec. *)
-From Coq Require Import Reals List String.
-From RV Require Import model.ActPrelude.
-Local Open Scope R_scope.
-
-(* softmax: reservoirpy/activationsfunc.py:84 *)
-Definition act_softmax (x : list R) (beta : R) : list R :=
-  let _x := x in
-  match _x with
-  | nil =>
-    (map (fun t => (exp (beta * t))) _x)
-  | _ :: _ =>
-    let _e := (map (fun t => (exp (beta * (t - (lmax _x))))) _x) in
-    (map (fun t => (t / (lsum _e))) _e)
-  end.
-
-Definition act_softmax_default_beta : R := 1.
-
-Definition act_softmax_exp_args (x : list R) (beta : R) : list R :=
-  (let _x := x in
-  match _x with
-  | nil =>
-    (map (fun t => (beta * t)) _x)
-  | _ :: _ =>
-    (map (fun t => (beta * (t - (lmax _x)))) _x)
-  end).
-
-Definition act_softmax_divisors (x : list R) (beta : R) : list R :=
-  (let _x := x in
-  match _x with
-  | nil =>
-    nil
-  | _ :: _ =>
-    (let _e := (map (fun t => (exp (beta * (t - (lmax _x))))) _x) in
-    (map (fun t => (lsum _e)) _e))
-  end).
-
-Definition act_softmax_log_args (x : list R) (beta : R) : list R :=
-  nil.
-
-(* softplus: reservoirpy/activationsfunc.py:111  (@_elementwise) *)
-Definition act_softplus_s (x : R) : R :=
-  ((Rmax x 0) + (ln (1 + (exp (- (Rabs x)))))).
-
-Definition act_softplus (xs : list R) : list R := map act_softplus_s xs.
-
-Definition act_softplus_exp_args (x : R) : list R :=
-  ((- (Rabs x)) :: nil).
-
-Definition act_softplus_divisors (x : R) : list R :=
-  nil.
-
-Definition act_softplus_log_args (x : R) : list R :=
-  ((1 + (exp (- (Rabs x)))) :: nil).
-
-(* sigmoid: reservoirpy/activationsfunc.py:134  (@_elementwise) *)
-Definition act_sigmoid_s (x : R) : R :=
-  if Rlt_dec x 0 then
-    let u := (exp x) in
-    (u / (u + 1))
-  else
-    (1 / (1 + (exp (- x)))).
-
-Definition act_sigmoid (xs : list R) : list R := map act_sigmoid_s xs.
-
-Definition act_sigmoid_exp_args (x : R) : list R :=
-  (if Rlt_dec x 0 then
-    (x :: nil)
-  else
-    ((- x) :: nil)).
-
-Definition act_sigmoid_divisors (x : R) : list R :=
-  (if Rlt_dec x 0 then
-    (let u := (exp x) in
-    ((u + 1) :: nil))
-  else
-    ((1 + (exp (- x))) :: nil)).
-
-Definition act_sigmoid_log_args (x : R) : list R :=
-  nil.
-
-(* tanh: reservoirpy/activationsfunc.py:157 *)
-Definition act_tanh (x : list R) : list R :=
-  (map (fun t => (tanh t)) x).
-
-Definition act_tanh_exp_args (x : list R) : list R :=
-  nil.
-
-Definition act_tanh_divisors (x : list R) : list R :=
-  nil.
-
-Definition act_tanh_log_args (x : list R) : list R :=
-  nil.
-
-(* identity: reservoirpy/activationsfunc.py:177  (@_elementwise) *)
-Definition act_identity_s (x : R) : R :=
-  x.
-
-Definition act_identity (xs : list R) : list R := map act_identity_s xs.
-
-Definition act_identity_exp_args (x : R) : list R :=
-  nil.
-
-Definition act_identity_divisors (x : R) : list R :=
-  nil.
-
-Definition act_identity_log_args (x : R) : list R :=
-  nil.
-
-(* relu: reservoirpy/activationsfunc.py:199  (@_elementwise) *)
-Definition act_relu_s (x : R) : R :=
-  if Rlt_dec x 0 then
-    0
-  else
-    x.
-
-Definition act_relu (xs : list R) : list R := map act_relu_s xs.
-
-Definition act_relu_exp_args (x : R) : list R :=
-  nil.
-
-Definition act_relu_divisors (x : R) : list R :=
-  nil.
-
-Definition act_relu_log_args (x : R) : list R :=
-  nil.
-
-(* get_function: name -> function *)
-Definition act_table : list (string * string) :=
-  ("softmax"%string, "softmax"%string) ::
-  ("softplus"%string, "softplus"%string) ::
-  ("sigmoid"%string, "sigmoid"%string) ::
-  ("tanh"%string, "tanh"%string) ::
-  ("identity"%string, "identity"%string) ::
-  ("relu"%string, "relu"%string) ::
-  ("smax"%string, "softmax"%string) ::
-  ("sp"%string, "softplus"%string) ::
-  ("sig"%string, "sigmoid"%string) ::
-  ("id"%string, "identity"%string) ::
-  ("re"%string, "relu"%string) ::
-  nil.
+(* GENERATED: translation of /tmp/seedwt_C18_get_function_alias_misaligned/reservoirpy/activationsfunc.py FAILED -- translation rejected: line 47: get_function has an unexpected shape *)
+Definition translation_failed : True := 0.
